@@ -39,6 +39,7 @@ fn check_iter_inner(z: &Zone, start: i128, forward: bool, limit: u32) -> CaseRes
     let cap = if limit == 0 { total_ref + 8 } else { limit as usize };
     let mut items: Vec<(i64, i32, bool, String, i32)> = vec![];
     let mut exhausted = false;
+    let mut resumed = false;
     {
         let mut pull = |it: &mut dyn Iterator<Item = jiff::tz::TimeZoneTransition<'_>>| {
             loop {
@@ -48,6 +49,8 @@ fn check_iter_inner(z: &Zone, start: i128, forward: bool, limit: u32) -> CaseRes
                 match it.next() {
                     None => {
                         exhausted = true;
+                        // a finished iterator stays finished (FusedIterator)
+                        resumed = it.next().is_some() || it.next().is_some();
                         break;
                     }
                     Some(t) => items.push((
@@ -66,6 +69,7 @@ fn check_iter_inner(z: &Zone, start: i128, forward: bool, limit: u32) -> CaseRes
             pull(&mut z.tz.preceding(ts));
         }
     }
+    ensure!(!resumed, format!("{dir}-resumes-after-end"), "{} {dir}({ts}): the iterator returned None and then yielded another transition", z.label);
     if limit == 0 && !exhausted {
         fail!(format!("{dir}-does-not-terminate"), "{} {dir}({ts}): more than {cap} items (reference has {total_ref}); last items {:?}", z.label, &items[items.len().saturating_sub(3)..]);
     }
@@ -301,6 +305,100 @@ fn test_gen(c: &GenIter, cx: &mut Cx) -> CaseResult {
     })
 }
 
+// --- rules whose transitions are clamped to the ends of their year: self-consistency --------------
+
+/// For rules that spill over a year boundary jiff documents that the transition is clamped into
+/// its calendar year; the reference reader does not model that, so only the clauses that need no
+/// reference are judged here: order, strictness, agreement of every yielded item with direct
+/// lookup at exactly that instant, and agreement of the two directions with each other.
+const CLAMPED_RULES: &[&str] = &[
+    "XXX3YYY,J60/0,J365/23",
+    "WST11WDT,J91/2,J365/20:30",
+    "HST10HDT,M4.1.0,M12.5.0/22",
+    "AAA-10BBB,J1/0,J100",
+    "AAA0BBB,J100,J365/24",
+    "EST5EDT,M1.1.0/-30,M11.1.0",
+    "<+12>-12<+13>,J300,J1/1",
+    "CCC-13DDD,J1/3,J200",
+    "EEE12FFF,J90,J365/14",
+];
+
+#[derive(Serialize, Deserialize, Debug, Clone)]
+struct ClampCase {
+    rule: u8,
+    year: i16,
+    /// offset from the start of `year` in nanoseconds
+    delta_ns: i64,
+    k: u8,
+}
+
+fn clamped_zones() -> &'static Vec<(String, jiff::tz::TimeZone)> {
+    static U: std::sync::OnceLock<Vec<(String, jiff::tz::TimeZone)>> = std::sync::OnceLock::new();
+    U.get_or_init(|| CLAMPED_RULES.iter().filter_map(|s| jiff::tz::TimeZone::posix(s).ok().map(|tz| (s.to_string(), tz))).collect())
+}
+
+fn test_clamped(c: &ClampCase, cx: &mut Cx) -> CaseResult {
+    let zs = clamped_zones();
+    let (name, tz) = &zs[c.rule as usize % zs.len()];
+    let start = (crate::refmodel::refcal::jan1(c.year as i64) as i128 * NS_PER_DAY + c.delta_ns as i128).clamp(TS_MIN as i128 * NS_PER_SEC, TS_MAX as i128 * NS_PER_SEC);
+    let ts = Timestamp::from_nanosecond(start).unwrap();
+    let k = 1 + (c.k % 6) as usize;
+    type Item = (i128, i32, bool, String);
+    let item = |t: jiff::tz::TimeZoneTransition<'_>| -> Item { (t.timestamp().as_nanosecond(), t.offset().seconds(), t.dst() == Dst::Yes, t.abbreviation().to_string()) };
+    let fwd: Vec<Item> = tz.following(ts).take(k).map(item).collect();
+    let bwd: Vec<Item> = tz.preceding(ts).take(k).map(item).collect();
+    cx.nt_if(c.delta_ns.abs() < 3 * 86_400_000_000_000);
+    for (dir, items) in [("following", &fwd), ("preceding", &bwd)] {
+        let mut prev: Option<i128> = None;
+        for it in items.iter() {
+            let fractional = it.0.rem_euclid(NS_PER_SEC) != 0;
+            cx.class_if(fractional, "clamped-transition-yielded");
+            if dir == "following" {
+                ensure!(it.0 > start && prev.map_or(true, |p| it.0 > p), format!("{dir}-not-increasing"), "posix:{name} following({ts}): {prev:?} then {} (start {start})", it.0);
+            } else {
+                ensure!(it.0 < start && prev.map_or(true, |p| it.0 < p), format!("{dir}-not-decreasing"), "posix:{name} preceding({ts}): {prev:?} then {} (start {start})", it.0);
+            }
+            prev = Some(it.0);
+            let at = Timestamp::from_nanosecond(it.0).unwrap();
+            let own = tz.to_offset_info(at);
+            ensure!(
+                own.offset().seconds() == it.1 && (own.dst() == Dst::Yes) == it.2 && own.abbreviation() == it.3,
+                format!("{dir}-item-vs-lookup"),
+                "posix:{name} {dir}({ts}): item at {at} reports ({}, {}, {:?}) but direct lookup there says ({}, {:?}, {:?})",
+                it.1, it.2, it.3, own.offset(), own.dst(), own.abbreviation()
+            );
+        }
+    }
+    // the two directions visit the same instants
+    if let Some(last) = fwd.last() {
+        if last.0 < TS_MAX as i128 * NS_PER_SEC {
+            let from = Timestamp::from_nanosecond(last.0 + 1).unwrap();
+            let mut back: Vec<Item> = tz.preceding(from).take(fwd.len()).map(item).collect();
+            back.reverse();
+            ensure!(back == fwd, "directions-disagree", "posix:{name}: following({ts}) = {fwd:?} but preceding({from}) walks back over {back:?}");
+        }
+    }
+    if let Some(last) = bwd.last() {
+        if last.0 > TS_MIN as i128 * NS_PER_SEC {
+            let from = Timestamp::from_nanosecond(last.0 - 1).unwrap();
+            let mut forth: Vec<Item> = tz.following(from).take(bwd.len()).map(item).collect();
+            forth.reverse();
+            ensure!(forth == bwd, "directions-disagree", "posix:{name}: preceding({ts}) = {bwd:?} but following({from}) walks forward over {forth:?}");
+        }
+    }
+    Ok(())
+}
+
+fn strat_clamped() -> BoxedStrategy<ClampCase> {
+    let year = prop_oneof![3 => 1900i16..=2100, 2 => -9998i16..=9998, 1 => prop_oneof![Just(-9999i16), Just(9999), Just(1970), Just(1969), Just(0), Just(1)]];
+    let delta = prop_oneof![
+        3 => prop_oneof![Just(0i64), Just(-1), Just(1), Just(-1_000_000_000), Just(-999_999_999), Just(-2), Just(1_000_000_000)],
+        3 => -3 * 86_400_000_000_000i64..=3 * 86_400_000_000_000,
+        2 => -366 * 86_400_000_000_000i64..=366 * 86_400_000_000_000,
+    ];
+    (any::<u8>(), year, delta, any::<u8>()).prop_map(|(rule, year, delta_ns, k)| ClampCase { rule, year, delta_ns, k }).boxed()
+}
+
 pub fn property() -> Property {
     Property {
         id: "C14",
@@ -315,8 +413,10 @@ pub fn property() -> Property {
             Box::new(Sweep { name: "c14.bundled", run: run_bundled, replay }),
             Box::new(Sweep { name: "c14.synthetic", run: run_synthetic, replay }),
             Box::new(Prop { name: "c14.generated", quick: 800_000, thorough: 10_000_000, strategy: strat_gen, test: test_gen }),
+            Box::new(Prop { name: "c14.clamped_rules", quick: 400_000, thorough: 10_000_000, strategy: strat_clamped, test: test_clamped }),
         ],
         floors: |rec| {
+            rec.floor("c14.clamped_rules:clamped-transition-yielded", "c14.clamped_rules:cases", 0.05);
             rec.floor("c14.generated:start-within-1s-of-transition", "c14.generated:cases", 0.30);
         },
     }
